@@ -23,6 +23,7 @@ func init() {
 				"R3.wiring":      "filter wires both passes to the real removal and propagates their errors; remove touches memory and agent",
 				"R4.passes":      "expiry and orphan passes: removal conditions and coverage of both collections",
 				"R5.validity":    "validity test: nil, clamp, comparison directions",
+				"R6.inplace":     "the remover overwrites only the removed identity's slot of the listing shared with the pruning passes",
 			},
 		},
 		Run: runC07,
@@ -210,6 +211,51 @@ func runC07(c *Ctx) {
 		c.Check(okArgs, "R3.wiring", "filter|"+shortFn(callee)+" sees the table and the fresh listing", w.Pos(pc.Pos()), "(s.certs, s.agent.List())", "the pruning pass is not given the in-memory table and this activation's agent listing: "+w.Short(pc.Call.Args[1])+", "+w.Short(pc.Call.Args[2]))
 	}
 	c.Floor("R3.wiring", len(passes), 2, "pruning passes called by filter")
+	// R6: while the passes range over the listing, the remover may overwrite only the slot of the removed
+	// identity in the shared backing array (swap-remove); shifting / appending over other slots makes the
+	// callers' range loops skip or repeat identities.
+	for _, pc := range passes {
+		mc, ok := strip(pc.Call.Args[0]).(*ssa.MakeClosure)
+		if !ok {
+			continue
+		}
+		clo := mc.Fn.(*ssa.Function)
+		// the captured listing variable: a free variable of slice type
+		for _, fv := range clo.FreeVars {
+			pt, ok := fv.Type().(*types.Pointer)
+			if !ok {
+				continue
+			}
+			if _, isSlice := pt.Elem().Underlying().(*types.Slice); !isSlice {
+				continue
+			}
+			bad := ""
+			for _, b := range clo.Blocks {
+				for _, ins := range b.Instrs {
+					switch x := ins.(type) {
+					case *ssa.Store:
+						if ia, ok := x.Addr.(*ssa.IndexAddr); ok {
+							if ld, ok := ia.X.(*ssa.UnOp); ok && ld.X == ssa.Value(fv) {
+								// allowed: the slot found by the range (a forward range index of this closure)
+								if !isForwardRangeIndex(ia.Index) {
+									bad = "writes slot " + w.Short(ia.Index) + " of the shared listing"
+								}
+							}
+						}
+					case *ssa.Call:
+						if bi, ok := x.Call.Value.(*ssa.Builtin); ok && (bi.Name() == "append" || bi.Name() == "copy") {
+							if strings.Contains(w.Expr(x.Call.Args[0]), "freevar:"+fv.Name()) || usesLoadOf(x.Call.Args[0], fv) {
+								bad = bi.Name() + " onto the shared listing shifts the identities that the pruning pass has not visited yet"
+							}
+						}
+					}
+				}
+			}
+			if pc == passes[0] {
+				c.Check(bad == "", "R6.inplace", "filter remover|only the removed slot of the shared listing is overwritten", w.FnPos(clo), "swap-remove writes the found slot only", "the remover "+bad+": the expiry / orphan pass ranging over the same backing array skips or repeats identities (an expired certificate can survive the pass)")
+			}
+		}
+	}
 	if expiry == nil || orphan == nil {
 		c.Unresolved("R4.passes", "expiry pass (calls the validity test) and orphan pass")
 	}
@@ -392,12 +438,61 @@ func checkOrphanPass(c *Ctx, fn *ssa.Function) {
 	f := w.Facts(fn)
 	rems := removalSites(w, fn)
 	c.Floor("R4.passes", len(rems), 1, "removal sites in the orphan pass")
-	// the key set: a local map updated for every listed key
-	var set *ssa.MakeMap
+	// the key set: a local map updated for every listed key, built here or by a helper given the listing
+	var set ssa.Value
+	setFn := fn
+	listParam := "p2"
 	for _, b := range fn.Blocks {
 		for _, ins := range b.Instrs {
 			if mm, ok := ins.(*ssa.MakeMap); ok {
 				set = mm
+			}
+		}
+	}
+	if set == nil {
+		for _, call := range callsIn(fn) {
+			cv, ok := call.(*ssa.Call)
+			if !ok {
+				continue
+			}
+			g := cv.Call.StaticCallee()
+			if g == nil || !w.InRepo(g) {
+				continue
+			}
+			if _, isMap := cv.Type().Underlying().(*types.Map); !isMap {
+				continue
+			}
+			for i, a := range cv.Call.Args {
+				if w.Expr(a) == "p2" {
+					// the helper must return a map it made itself
+					for _, b := range g.Blocks {
+						for _, ins := range b.Instrs {
+							if mm, ok := ins.(*ssa.MakeMap); ok {
+								okRet := true
+								for _, r := range liveReturns(g) {
+									if r.Results[0] != ssa.Value(mm) {
+										okRet = false
+									}
+								}
+								if okRet {
+									set, setFn, listParam = cv, g, "p"+itoa(i)
+									c.Saw(g)
+									_ = mm
+								}
+							}
+						}
+					}
+				}
+			}
+		}
+	}
+	var setInHelper ssa.Value = set
+	if setFn != fn {
+		for _, b := range setFn.Blocks {
+			for _, ins := range b.Instrs {
+				if mm, ok := ins.(*ssa.MakeMap); ok {
+					setInHelper = mm
+				}
 			}
 		}
 	}
@@ -423,7 +518,7 @@ func checkOrphanPass(c *Ctx, fn *ssa.Function) {
 				return false
 			}
 			lk, ok := ex.Tuple.(*ssa.Lookup)
-			if !ok || set == nil || lk.X != ssa.Value(set) {
+			if !ok || set == nil || lk.X != set {
 				return false
 			}
 			ke := w.Expr(lk.Index)
@@ -434,17 +529,17 @@ func checkOrphanPass(c *Ctx, fn *ssa.Function) {
 	// the set is filled from every listed key: map updates inside a forward range over p2, one on each branch of the cast
 	nUpd := 0
 	plain, viaCert := false, false
-	for _, b := range fn.Blocks {
+	for _, b := range setFn.Blocks {
 		for _, ins := range b.Instrs {
 			mu, ok := ins.(*ssa.MapUpdate)
-			if !ok || set == nil || mu.Map != ssa.Value(set) {
+			if !ok || set == nil || mu.Map != setInHelper {
 				continue
 			}
 			nUpd++
 			ke := w.Expr(mu.Key)
 			if strings.Contains(ke, "#0.Key)") {
 				viaCert = true
-			} else if strings.Contains(ke, "Marshal>(p2[") {
+			} else if strings.Contains(ke, "Marshal>("+listParam+"[") {
 				plain = true
 			}
 		}
@@ -607,4 +702,19 @@ func uintConst(v ssa.Value) (uint64, bool) {
 		n = n*10 + uint64(ch-'0')
 	}
 	return n, true
+}
+
+// usesLoadOf: v is (a slice of) a load of the captured variable fv.
+func usesLoadOf(v ssa.Value, fv *ssa.FreeVar) bool {
+	for i := 0; i < 4; i++ {
+		switch x := v.(type) {
+		case *ssa.Slice:
+			v = x.X
+		case *ssa.UnOp:
+			return x.X == ssa.Value(fv)
+		default:
+			return false
+		}
+	}
+	return false
 }
